@@ -251,9 +251,15 @@ func (s Site) Break(t *verifsim.Tape, d *spec.Design, loc Loc) bool {
 	if !ok {
 		return false
 	}
+	if s.attr.HasDef && !s.attr.Required && isZero(nv) {
+		// the sender's field is a plain value: its zero value reads as "unset" and the generated
+		// client sends the default instead, so this violation cannot be expressed through it
+		return false
+	}
 	s.set(carrierSafe(nv, loc))
 	return true
 }
+
 
 // carrierSafe keeps a mutated string expressible in its location: HTTP parsers
 // trim blanks around header and cookie values, so blanks at the ends are
